@@ -117,6 +117,10 @@ def generate(report):
         _, _, em = find_fn(src, "embed_msg")
         lanes = re.findall(r"for\s+j\s+in\s+0\.\.(\d+)", em)
         offs = re.findall(r"<<\s*\((\d+)\s*\+\s*(\d+)\s*\*\s*j\)", em)
+        # the same shift amount with the summands / factors in another order: (16 * j + 15), (15 + j * 16), (j * 16 + 15)
+        offs += [(o, w) for w, o in re.findall(r"<<\s*\((\d+)\s*\*\s*j\s*\+\s*(\d+)\)", em)]
+        offs += re.findall(r"<<\s*\((\d+)\s*\+\s*j\s*\*\s*(\d+)\)", em)
+        offs += [(o, w) for w, o in re.findall(r"<<\s*\(j\s*\*\s*(\d+)\s*\+\s*(\d+)\)", em)]
         his = re.findall(r"msg\[i\]\s*>>\s*\((\d+)\s*\+\s*j\)", em)
         if len(set(lanes)) != 1 or len(lanes) != 2 or len(set(offs)) != 1 or len(offs) != 2 or len(his) != 1:
             raise Untranslatable("embed_msg shape")
@@ -126,6 +130,14 @@ def generate(report):
         masks = re.findall(r"let\s+chunk\s*=\s*value\s*&\s*(0x[0-9a-fA-F]+|\d+)\s*;", exm)
         shr = re.findall(r"value\s*>>=\s*(\d+)\s*;", exm)
         conds = re.findall(r"if\s+chunk\s*<\s*\(1\s*<<\s*(\d+)\)\s*\|\|\s*\(1\s*<<\s*(\d+)\)\s*-\s*chunk\s*<\s*\(1\s*<<\s*(\d+)\)\s*\{\s*0\s*\}\s*else\s*\{\s*1\s*\}", exm)
+        # the same window with the bounds written as literals: `chunk < T || chunk > W - T` (chunk is masked to 16 bits, so
+        # `W - chunk < T` is `chunk > W - T`); accepted only when T and W are powers of two
+        for lo_, hi_ in re.findall(r"if\s+chunk\s*<\s*(0x[0-9a-fA-F_]+|\d[\d_]*)\s*\|\|\s*chunk\s*>\s*(0x[0-9a-fA-F_]+|\d[\d_]*)"
+                                   r"\s*\{\s*0\s*\}\s*else\s*\{\s*1\s*\}", exm):
+            t_, h_ = int(lo_.replace("_", ""), 0), int(hi_.replace("_", ""), 0)
+            w_ = t_ + h_
+            if t_ > 0 and t_ & (t_ - 1) == 0 and w_ & (w_ - 1) == 0:
+                conds.append((str(t_.bit_length() - 1), str(w_.bit_length() - 1), str(t_.bit_length() - 1)))
         xl = re.findall(r"for\s+j\s+in\s+0\.\.(\d+)", exm)
         xh = re.findall(r"byte\s*\|=\s*bit\s*<<\s*\((\d+)\s*\+\s*j\)\s*;", exm)
         xlo = re.findall(r"byte\s*\|=\s*bit\s*<<\s*j\s*;", exm)
